@@ -9,9 +9,29 @@ Command handlers for the Pauli compiler slice (C05, C06, C07).
   ctfront TARGET k      compile_target up to the call of compile(V, W)
   valid N k TARGET SEQ  the verified validator `validSeq` with its ingredients
   witness N k TARGET    the recorded observation of compile_target (refutation witnesses)
+  compile N k TARGET    compile_target(TARGET, k) by the model of the search (Model/CompilerSearch.lean):
+                        `seq=…` or `!<exception type>@<raising function>`
+  ccompile N k T1,T2,…  the CLASS API with object reuse: ONE `OptimalPauliCompiler(k, N)` compiles the targets in a row
+                        (`compile(V_i, W_i)`); replies joined by `|`.  `compile` is a pure function of (k, N, V, W), so the
+                        model's reply is what a fresh compiler gives for every target
+  compilex N k TARGET   the same with the `return` of `compile` that produced it and the failure kind
+                        the validator gives on the model's own output (model only)
+  ckind N k TARGET      that failure kind alone: `ok`, `raise:<type>@<function>` or the defects of the sequence
+  lmap k FROM TO        left_map_over_a(FROM, TO, left_a_minimal(k))
+  subc N k W            SubsystemCompiler(k, N).subsystem_compiler(W)
+  forders N k W         factor_w_orders(W): the right factors of every ordering
+  cdec N k W            _candidate_decompositions(W)
+  bfs3 N k W D M        _bfs_case3(W, depth_cap=D, node_cap=M)
+  a1a2 k U              SubsystemCompiler(k, k+1)._choose_a1_a2(U)   (never reached from compile_target for N<=6)
+  aprime k U P          SubsystemCompiler(k, k+1)._choose_aprime(U, P)
+  case3 N k G1 G2 A W   _case3_best_reordering(G1, G2, A, W)
+  case3x N k G1 G2 A W  the phase of it that found the result (model only)
+  il3 CAP A B C S       _all_interleavings_preserving(A, B, C, CAP) consumed until it yields S: number of yields, hit or not
+  il4 CAP A B C D S     _all_interleavings_preserving4 likewise
 -/
 import PauLieVerif.Model.Proto
 import PauLieVerif.Model.Compiler
+import PauLieVerif.Model.CompilerSearch
 
 namespace PauLie
 namespace CmdCompiler
@@ -24,6 +44,43 @@ def valid (n k : Int) (target : PS) (seq : List PS) : String :=
     | .error e => s!"!{e}"
     | .ok u => showBool (seq.all (fun x => u.contains x))
   s!"valid={showBool (validSeq n k target seq)} nonempty={showBool (!seq.isEmpty)} inset={inset} nested={showRes (nestedPublic seq)}"
+
+def showFail {α} (f : α → String) : Except Fail α → String
+  | .ok a => f a
+  | .error e => s!"!{e}"
+
+/-- helper commands report the exception type only -/
+def showFailT {α} (f : α → String) : Except Fail α → String
+  | .ok a => f a
+  | .error e => s!"!{e.typeName}"
+
+def showPairs (l : List (PS × PS)) : String :=
+  if l.isEmpty then "-" else String.intercalate "," (l.map (fun p => s!"{showPS p.1}/{showPS p.2}"))
+
+def showOrders (l : List (List (PS × PS))) : String :=
+  if l.isEmpty then "-" else String.intercalate ";" (l.map (fun o =>
+    if o.isEmpty then "-" else String.intercalate "." (o.map (fun p => showPS p.2))))
+
+/-- failure kind of a returned sequence, from the verdict of the verified validator and its
+ingredients (mirror of `compiler_checks.kind_of`) -/
+def kindOf (n k : Int) (target : PS) (seq : List PS) : String :=
+  if validSeq n k target seq then "ok"
+  else
+    let inset := match universalSet n k with
+      | .error _ => false
+      | .ok u => seq.all (fun x => u.contains x)
+    let ks : List String :=
+      (if seq.isEmpty then ["empty"] else [])
+      ++ (if inset then [] else ["outside"])
+      ++ (match nestedPublic seq with
+          | .ok none => if seq.isEmpty then [] else ["zero"]
+          | .error _ => ["error"]
+          | .ok (some r) => if showPS r != showPS target then ["wrong"] else [])
+    if ks.isEmpty then "invalid" else String.intercalate "+" ks
+
+def kindOfResult (n k : Int) (target : PS) : Except Fail (Branch × List PS) → String
+  | .error e => s!"raise:{e}"
+  | .ok r => kindOf n k target r.2
 
 def handle (line : String) : Option String :=
   match line.splitOn " " with
@@ -66,6 +123,117 @@ def handle (line : String) : Option String :=
       match observedRaises.lookup (n, k, t) with
       | some e => return "!" ++ e
       | none => return "not-recorded"
+  | ["compile", _, k, t] => do
+    let k ← int? k
+    let t ← ps? t
+    return showFail (fun s => "seq=" ++ showPSList s) (compileTarget t k)
+  | ["ccompile", n, k, ts] => do
+    let n ← int? n
+    let k ← int? k
+    let ts ← psList? ts
+    match mkCtx k n with
+    | .error e => return s!"!{e}"
+    | .ok c =>
+      return String.intercalate "|" (ts.map (fun t =>
+        showFail (fun (r : Branch × List PS) => "seq=" ++ showPSList r.2)
+          (compile c (t.getSubstring 0 k) (t.getSubstring k (n - k)))))
+  | ["compilex", _, k, t] => do
+    let k ← int? k
+    let t ← ps? t
+    let r := compileTargetB t k
+    let kd := kindOfResult (t.len : Int) k t r
+    return showFail (fun (r : Branch × List PS) => s!"branch={r.1.name} kind={kd} seq={showPSList r.2}") r
+  | ["ckind", _, k, t] => do
+    let k ← int? k
+    let t ← ps? t
+    return kindOfResult (t.len : Int) k t (compileTargetB t k)
+  | ["lmap", k, a, b] => do
+    let k ← int? k
+    let a ← ps? a
+    let b ← ps? b
+    return showFailT showPSList (do
+      let aset ← liftAt .leftAMinimal (leftAMinimal k)
+      leftMapOverA a b aset)
+  | ["subc", n, k, w] => do
+    let n ← int? n
+    let k ← int? k
+    let w ← ps? w
+    return showFailT showPSList (do
+      let c ← mkCtx k n
+      subsystemCompiler c w)
+  | ["forders", n, k, w] => do
+    let n ← int? n
+    let k ← int? k
+    let w ← ps? w
+    return showFailT showOrders (do
+      let c ← mkCtx k n
+      factorWOrders c w)
+  | ["cdec", n, k, w] => do
+    let n ← int? n
+    let k ← int? k
+    let w ← ps? w
+    return showFailT showPairs (do
+      let c ← mkCtx k n
+      candidateDecompositions c w)
+  | ["bfs3", n, k, w, d, m] => do
+    let n ← int? n
+    let k ← int? k
+    let w ← ps? w
+    let d ← d.toNat?
+    let m ← m.toNat?
+    return showFailT (showOpt showPSList) (do
+      let c ← mkCtx k n
+      bfsCase3 { c with fallbackDepth := d, fallbackNodes := m } w)
+  | ["a1a2", k, u] => do
+    let k ← int? k
+    let u ← ps? u
+    return showFailT (fun (r : PS × PS) => s!"{showPS r.1},{showPS r.2}") (do
+      let c ← mkCtx k (k + 1)
+      chooseA1A2 c u)
+  | ["aprime", k, u, pl] => do
+    let k ← int? k
+    let u ← ps? u
+    let pl ← ps? pl
+    return showFailT showPS (do
+      let c ← mkCtx k (k + 1)
+      chooseAprime u pl c.pool)
+  | ["case3x", n, k, g1, g2, a, w] => do
+    let n ← int? n
+    let k ← int? k
+    let g1 ← psList? g1
+    let g2 ← psList? g2
+    let a ← psList? a
+    let w ← ps? w
+    return showFailT (showOpt (fun (r : Nat × List PS) => s!"phase{r.1}")) (do
+      let c ← mkCtx k n
+      case3BestReordering c g1 g2 a w)
+  | ["case3", n, k, g1, g2, a, w] => do
+    let n ← int? n
+    let k ← int? k
+    let g1 ← psList? g1
+    let g2 ← psList? g2
+    let a ← psList? a
+    let w ← ps? w
+    return showFailT (showOpt (fun (r : Nat × List PS) => showPSList r.2)) (do
+      let c ← mkCtx k n
+      case3BestReordering c g1 g2 a w)
+  | ["il3", cap, a, b, c, s] => do
+    let cap ← cap.toNat?
+    let a ← psList? a
+    let b ← psList? b
+    let c ← psList? c
+    let s ← psList? s
+    return showFailT (fun (r : Nat × Option (List PS)) => s!"count={r.1} hit={showBool r.2.isSome}")
+      (inter3 (fun x => pure (x == s)) cap (a.length + b.length + c.length + 1) a b c [] 0)
+  | ["il4", cap, a, b, c, d, s] => do
+    let cap ← cap.toNat?
+    let a ← psList? a
+    let b ← psList? b
+    let c ← psList? c
+    let d ← psList? d
+    let s ← psList? s
+    return showFailT (fun (r : Nat × Option (List PS)) => s!"count={r.1} hit={showBool r.2.isSome}")
+      (inter4 (fun x => pure (x == s)) cap (a.length + b.length + c.length + d.length + 1) a b c d [] 0)
   | _ => none
 
 end CmdCompiler
